@@ -13,6 +13,7 @@
 From Coq Require Import List Arith Bool NArith.
 Import ListNotations.
 From Verif Require Import Gen.Tables C08.Base C08.Arity C08.Spec C08.Proofs C08.ProofsRecur C08.TableProofs.
+From Verif Require C08.Corr C08.CorrProofs.
 
 (** Obligations on what the translator re-derives from the source on every run *)
 Theorem C08_table_dispatch_cmp : arity_dispatch_cmp = 0%N.
@@ -21,6 +22,12 @@ Theorem C08_table_shapes :
   arity_apply_to_shape = 1%N /\ arity_apply_shape = 1%N /\ arity_unwrap_shape = 1%N
   /\ arity_partial_shape = 1%N /\ arity_trampoline_shape = 1%N /\ arity_analyzer_rule = 1%N.
 Proof. exact TableProofs.shapes_ok. Qed.
+(** the two repairs are present in the source the model was re-derived from; partial's arity
+    recomputation has the shape of the open finding F-08c *)
+Theorem C08_table_repairs_present : arity_tramp_nil = 1%N /\ arity_recur_flag = 1%N.
+Proof. exact TableProofs.repairs_present. Qed.
+Theorem C08_table_partial_cmp : arity_partial_cmp = 0%N.
+Proof. exact TableProofs.partial_cmp_open. Qed.
 
 (** the chosen arity is a matching one; every matching arity is the chosen one except at the
     overlap of a fixed arity with the variadic arity (no surplus), where the fixed one runs;
@@ -93,17 +100,24 @@ Proof. exact (@partial_arities). Qed.
 Theorem C08_partial_is_shifted_signature : forall s p n, wf_sig s = true ->
   choose (shift_sig s p) (Some n) = option_map (shift_arity p) (choose s (Some (p + n))).
 Proof. exact choose_shift. Qed.
+(** the `arities` ATTRIBUTE of a partial should have n as a member iff p + n is one for f
+    ([shift_counts]).  The working tree's code ([arities]; open finding F-08c) is right under the
+    executable guard [partial_report_ok] and loses the member 0 otherwise *)
 Theorem C08_partial_reported_arities_partial : forall (A : Type) (s : sig) (pa : list A),
   partial_report_ok s (length pa) = true ->
-  arities (CPartial (CFn s) pa) = (all_counts (shift_sig s (length pa)), is_variadic s).
-Proof. exact (@partial_reported_partial). Qed.
+  arities (CPartial (CFn s) pa) = (shift_counts (all_counts s) (length pa), is_variadic s).
+Proof. exact (@partial_reported_old_partial). Qed.
 Theorem C08_partial_reported_arities_refuted :
   exists (s : sig) (pa : list unit),
     wf_sig s = true
-    /\ In 0 (all_counts (shift_sig s (length pa)))
+    /\ In 0 (shift_counts (all_counts s) (length pa))
     /\ ~ In 0 (fst (arities (CPartial (CFn s) pa)))
     /\ call (CPartial (CFn s) pa) [] = RBound (AFix 1) pa RestNil.
-Proof. exact partial_reported_refuted. Qed.
+Proof. exact partial_reported_old_refuted. Qed.
+(** the proposed (not applied) repair `a >= n`: exact for arbitrarily nested partials *)
+Theorem C08_partial_reported_arities_repaired_shape : forall (A : Type) (c : callee A),
+  arities_gen true c = (shift_counts (all_counts (base c)) (length (pargs c)), is_variadic (base c)).
+Proof. exact (fun A c => arities_ge_spec c). Qed.
 
 (** apply through the Var is eager (finite tails are covered by C08_bind_correct) *)
 Theorem C08_apply_via_var_refuted :
@@ -113,34 +127,41 @@ Theorem C08_apply_via_var_refuted :
     /\ exists t6 : tail nat, tlen t6 = Some 6 /\ snd (apply t6 true (CFn s) []) = 6 /\ force_bound 0 0 = 1.
 Proof. exact apply_via_var_refuted. Qed.
 
-(** recur: re-binding *)
+(** recur: re-binding, for the working tree's code (after repairs F-08a, F-08b; these break
+    if a repair is reverted).  Every recur in a fixed arity, and in the variadic arity when the
+    last value is nil or a finite ISeq, re-enters the arity with the values bound in order *)
 Theorem C08_recur_rebinds_partial : forall (s : sig) (ar : arity) (vs : list rval),
-  arity_of s ar -> recur_legal ar vs -> recur_safe s ar vs = true -> recur_ok ar vs (recur_step s ar vs).
-Proof. exact recur_rebinds_partial. Qed.
+  recur_legal ar vs -> recur_safe ar vs = true -> recur_ok ar vs (recur_step s ar vs).
+Proof. exact recur_rebinds_partial_gen. Qed.
+(** open finding F-08e: an infinite lazy seq is realized eagerly; a vector is wrapped *)
 Theorem C08_recur_rebinds_refuted :
   (exists s ar vs, wf_sig s = true /\ arity_of s ar /\ recur_legal ar vs
-      /\ recur_step s ar vs = RBound (ARest 0) [] (RestSeq [VNil] None) /\ ~ recur_ok ar vs (recur_step s ar vs))
-  /\ (exists s ar vs, wf_sig s = true /\ arity_of s ar /\ recur_legal ar vs
       /\ recur_step s ar vs = RDiverge /\ ~ recur_ok ar vs (recur_step s ar vs))
   /\ (exists s ar vs, wf_sig s = true /\ arity_of s ar /\ recur_legal ar vs
       /\ recur_step s ar vs = RBound (ARest 1) [VAtom 1%N] (RestSeq [VVec [7%N; 8%N]] None)
-      /\ ~ recur_ok ar vs (recur_step s ar vs))
-  /\ (exists s ar vs, wf_sig s = true /\ arity_of s ar /\ recur_legal ar vs
-      /\ recur_step s ar vs = RArityErr TypeErr /\ ~ recur_ok ar vs (recur_step s ar vs))
-  /\ (exists s ar vs, wf_sig s = true /\ arity_of s ar /\ recur_legal ar vs
-      /\ recur_step s ar vs = RBound (AFix 2) [VAtom 1%N; VAtom 7%N] RestNil
       /\ ~ recur_ok ar vs (recur_step s ar vs)).
-Proof. exact recur_rebinds_refuted. Qed.
-(** for recur, "an arity error before any body code runs" fails: the error of the 4th witness
-    is raised by the trampoline after the arity's body has run; not under the guard *)
-Theorem C08_no_arity_error_after_body_starts_recur_refuted :
-  exists s ar vs, wf_sig s = true /\ arity_of s ar /\ recur_legal ar vs
-    /\ recur_step s ar vs = RArityErr TypeErr.
-Proof. exact recur_arity_error_after_body_refuted. Qed.
-Theorem C08_no_arity_error_after_body_starts_recur_partial : forall (s : sig) (ar : arity) (vs : list rval),
-  arity_of s ar -> recur_legal ar vs -> recur_safe s ar vs = true ->
-  forall e, recur_step s ar vs <> RArityErr e.
-Proof. exact recur_no_arity_error_partial. Qed.
+Proof. exact recur_rebinds_refuted_gen. Qed.
+(** "no arity error after body code ran" now also holds across recur, with no guard *)
+Theorem C08_no_arity_error_after_body_starts_recur : forall (s : sig) (ar : arity) (vs : list rval),
+  recur_legal ar vs -> forall e, recur_step s ar vs <> RArityErr e.
+Proof. exact recur_never_arity_error_gen. Qed.
+(** the code before the repairs (flag of the whole fn, nil passed on): rest = (nil); TypeError
+    after the body ran; silent mis-binding -- and the sub-domain on which it was right *)
+Theorem C08_recur_old_shape_refuted :
+  (exists s ar vs, wf_sig s = true /\ arity_of s ar /\ recur_legal ar vs
+      /\ recur_step_gen false false s ar vs = RBound (ARest 0) [] (RestSeq [VNil] None)
+      /\ ~ recur_ok ar vs (recur_step_gen false false s ar vs))
+  /\ (exists s ar vs, wf_sig s = true /\ arity_of s ar /\ recur_legal ar vs
+      /\ recur_step_gen false false s ar vs = RArityErr TypeErr
+      /\ ~ recur_ok ar vs (recur_step_gen false false s ar vs))
+  /\ (exists s ar vs, wf_sig s = true /\ arity_of s ar /\ recur_legal ar vs
+      /\ recur_step_gen false false s ar vs = RBound (AFix 2) [VAtom 1%N; VAtom 7%N] RestNil
+      /\ ~ recur_ok ar vs (recur_step_gen false false s ar vs)).
+Proof. exact recur_old_shape_refuted. Qed.
+Theorem C08_recur_old_shape_partial : forall (s : sig) (ar : arity) (vs : list rval),
+  arity_of s ar -> recur_legal ar vs -> recur_safe_old s ar vs = true ->
+  recur_ok ar vs (recur_step_gen false false s ar vs).
+Proof. exact recur_old_shape_partial. Qed.
 
 (** recur: stack.  Any body, any iteration count n: each of the n+1 executions of the body
     sees depth(caller) + 0 (loop) / 2 (single-arity fn) / 3 (multi-arity fn) *)
@@ -153,6 +174,21 @@ Theorem C08_selfcall_stack_grows : forall (again : nat -> bool) (host : list fra
   selfcall_run again fuel host 0 [] = Some (map (fun d => S (length host) + d) (seq 0 (S n))).
 Proof. exact selfcall_stack_grows. Qed.
 
+(** the tie between the declarative spec and the executable one the harness evaluates: whatever
+    satisfies [bind_ok] is observed (arity code, parameters, first 10 of the rest parameter) as
+    exactly the binding [Corr.spec_binding] computes and [Corr.spec_ok] demands; and the callables
+    the harness builds have the signature and pre-supplied arguments its spec assumes *)
+Theorem C08_corr_spec_is_bind_ok : forall (s : sig) (lead : list N) (t : tail N) (r : result N) (forced : nat),
+  bind_ok s lead t r ->
+  match Corr.spec_binding s lead t with
+  | Some (ar, ps, rv) => Corr.observe t (r, forced) = Corr.OBound (Corr.arity_code ar) ps rv (N.of_nat forced)
+  | None => Corr.observe t (r, forced) = Corr.OArityErr (N.of_nat forced)
+  end.
+Proof. exact CorrProofs.observe_of_bind_ok. Qed.
+Theorem C08_corr_callee : forall s ps,
+  base (Corr.mk_callee s ps) = s /\ pargs (Corr.mk_callee s ps) = Corr.part_vals 0 (Corr.n_partial ps).
+Proof. exact CorrProofs.mk_callee_spec. Qed.
+
 (** non-vacuity *)
 Example C08_bind_nonvacuous :
   let s := mkSig [1] (Some 3) in
@@ -163,8 +199,10 @@ Proof. exact bind_nonvacuous. Qed.
 Example C08_recur_rebinds_nonvacuous :
   let s := mkSig [0; 1] (Some 1) in
   let vs := [VAtom 5%N; VSeq [7%N; 8%N]] in
-  wf_sig s = true /\ recur_legal (ARest 1) vs /\ recur_safe s (ARest 1) vs = true
-  /\ recur_step s (ARest 1) vs = RBound (ARest 1) [VAtom 5%N] (RestSeq [VAtom 7%N; VAtom 8%N] None).
+  wf_sig s = true /\ recur_legal (ARest 1) vs /\ recur_safe (ARest 1) vs = true
+  /\ recur_step s (ARest 1) vs = RBound (ARest 1) [VAtom 5%N] (RestSeq [VAtom 7%N; VAtom 8%N] None)
+  /\ recur_step s (ARest 1) [VAtom 5%N; VNil] = RBound (ARest 1) [VAtom 5%N] RestNil
+  /\ recur_step s (AFix 1) [VSeq [7%N; 8%N]] = RBound (AFix 1) [VSeq [7%N; 8%N]] RestNil.
 Proof. exact recur_rebinds_nonvacuous. Qed.
 Example C08_recur_stack_nonvacuous :
   run_kind KFnMulti (fun i => i <? 5) 100 [FHost; FHost] = Some [5; 5; 5; 5; 5; 5]
@@ -173,6 +211,8 @@ Proof. exact recur_stack_nonvacuous. Qed.
 
 Print Assumptions C08_table_dispatch_cmp.
 Print Assumptions C08_table_shapes.
+Print Assumptions C08_table_repairs_present.
+Print Assumptions C08_table_partial_cmp.
 Print Assumptions C08_chosen_arity_unique.
 Print Assumptions C08_bind_correct.
 Print Assumptions C08_no_arity_error_after_body_starts.
@@ -184,13 +224,17 @@ Print Assumptions C08_partial_arities.
 Print Assumptions C08_partial_is_shifted_signature.
 Print Assumptions C08_partial_reported_arities_partial.
 Print Assumptions C08_partial_reported_arities_refuted.
+Print Assumptions C08_partial_reported_arities_repaired_shape.
 Print Assumptions C08_apply_via_var_refuted.
 Print Assumptions C08_recur_rebinds_partial.
 Print Assumptions C08_recur_rebinds_refuted.
-Print Assumptions C08_no_arity_error_after_body_starts_recur_refuted.
-Print Assumptions C08_no_arity_error_after_body_starts_recur_partial.
+Print Assumptions C08_no_arity_error_after_body_starts_recur.
+Print Assumptions C08_recur_old_shape_refuted.
+Print Assumptions C08_recur_old_shape_partial.
 Print Assumptions C08_recur_constant_stack.
 Print Assumptions C08_selfcall_stack_grows.
+Print Assumptions C08_corr_spec_is_bind_ok.
+Print Assumptions C08_corr_callee.
 Print Assumptions C08_bind_nonvacuous.
 Print Assumptions C08_recur_rebinds_nonvacuous.
 Print Assumptions C08_recur_stack_nonvacuous.
